@@ -77,7 +77,7 @@ func fields() [][]ref.Field {
 		}
 		tpls = [][]ref.Field{
 			{byName("sourceIPv4Address", 0), byName("protocolIdentifier", 0)},
-			{byName("sourceTransportPort", 0), byName("sourcePodName", 56506), byName("octetDeltaCount", 0)},
+			{byName("sourceTransportPort", 0), byName("sourcePodName", 56506), byName("octetDeltaCount", 0), byName("mplsTopLabelStackSection", 0)},
 		}
 	}
 	return tpls
@@ -124,7 +124,7 @@ func build(c Case) (msgs [][]byte, valid []bool) {
 			}
 		case "baddata": // a data set for template 1 whose record is cut inside its last field
 			t, id = 1, 257
-			r := []ref.Value{{U: uint64(i)}, {B: []byte("abc")}, {U: 99}}
+			r := []ref.Value{{U: uint64(i)}, {B: []byte("abc")}, {U: 99}, {B: []byte{1, 2, 3, 4}}}
 			b = ref.DataMessage(h, ref.Template{ID: id, Fields: fs[1]}, [][]ref.Value{r})
 			b = gen.FixLengths(append([]byte(nil), b[:len(b)-2]...))
 			ok = false
@@ -338,7 +338,9 @@ func runCase2(c Case2) *ev.Failure {
 	if err != nil {
 		return ev.Failf("InitCollectingProcess: %v", err)
 	}
-	rec1 := func(k int) [][]ref.Value { return [][]ref.Value{{{U: uint64(k)}, {B: []byte("pod")}, {U: 7}}} }
+	rec1 := func(k int) [][]ref.Value {
+		return [][]ref.Value{{{U: uint64(k)}, {B: []byte("pod")}, {U: 7}, {B: []byte{byte(k), 2, 3}}}}
+	}
 	tb := ref.TemplateMessage(ref.Header{Domain: 3, Seq: 500}, ref.Template{ID: 257, Fields: fs[1]})
 	d1 := ref.DataMessage(ref.Header{Domain: 3, Seq: 501}, ref.Template{ID: 257, Fields: fs[1]}, rec1(1))
 	d2 := ref.DataMessage(ref.Header{Domain: 3, Seq: 502}, ref.Template{ID: 257, Fields: fs[1]}, rec1(2))
